@@ -160,7 +160,14 @@ func (qs *QueryStore) OnQueryChange(cb func(store.QueryChange)) {
 
 // Flush waits for the indexing queue to be cleared.
 func (qs *QueryStore) Flush() {
-	qs.tq.Flush()
+	// The task queue counts a task as done when it is taken off the queue,
+	// before it has run, so waiting for the queue to be empty may return
+	// while the last index update is still in progress. Tasks run one at a
+	// time in the order they were queued: queue a task of our own and wait
+	// for it to run instead.
+	done := make(chan struct{})
+	qs.tq.Do(func() { close(done) })
+	<-done
 }
 
 func (qs *QueryStore) handleChange(id string, before, after interface{}) {
